@@ -7,6 +7,7 @@ import (
 	"math/rand"
 	"strconv"
 	"strings"
+	"time"
 )
 
 type rngT struct{ *rand.Rand }
@@ -201,4 +202,57 @@ func decPlan(s string) ([]int, bool) {
 		}
 	}
 	return plan, errWith
+}
+
+// ---- scheduling canary -------------------------------------------------------------------------------------------------------
+// Observations that are classified by wall-clock time (reconnect periods, idle expiry, heartbeat spacing) are only meaningful if
+// the harness itself was scheduled on time while they were made. A canary goroutine sleeps 5 ms at a time and records by how much
+// it overslept; a scenario during which it overslept by more than `canaryLimit` is run again (a few times): the judgement is then
+// made on an observation taken while the machine behaved. A defect of the code shows up in the undisturbed run as well.
+const canaryLimit = 40 * time.Millisecond
+
+type canary struct {
+	stop chan struct{}
+	done chan struct{}
+	max  time.Duration
+}
+
+func startCanary() *canary {
+	c := &canary{stop: make(chan struct{}), done: make(chan struct{})}
+	go func() {
+		defer close(c.done)
+		for {
+			select {
+			case <-c.stop:
+				return
+			default:
+			}
+			t := time.Now()
+			time.Sleep(5 * time.Millisecond)
+			if d := time.Since(t) - 5*time.Millisecond; d > c.max {
+				c.max = d
+			}
+		}
+	}()
+	return c
+}
+
+func (c *canary) finish() time.Duration {
+	close(c.stop)
+	<-c.done
+	return c.max
+}
+
+// undisturbed runs a timed scenario, again (up to four times in all) while the canary reports that the machine held the harness up.
+func undisturbed(run func() string) string {
+	var out string
+	for attempt := 0; attempt < 4; attempt++ {
+		c := startCanary()
+		out = run()
+		if c.finish() <= canaryLimit {
+			return out
+		}
+		stat("timed-scenario-rerun-after-disturbance")
+	}
+	return out
 }
